@@ -116,16 +116,18 @@ def run_history_check(prop, tier, mode, runs, cat, budget_s, design_ref, assumpt
                     d = {"class": "hang", "kind": "hang", "first_repo_function": "?"}
                 else:
                     d = death_desc({"stderr": rep, "exit": 77})
-                d["dict_kind"] = (sf.get("what") or "?").split(" ")[0]
+                w = (sf.get("what") or "? ?").split(" ")
+                d["dict_kind"] = w[0]
+                d["state"] = w[1] if len(w) > 1 else "?"
                 d["what"] = sf.get("what")
                 d.update({"phase": "ref", "step": "isolated-reference-call", "harness": "history", "mode": mode})
                 if d.get("first_repo_function"):
-                    sym_functions[d["first_repo_function"]] += 1
+                    sym_functions[(d["first_repo_function"], d["dict_kind"], d["state"])] += 1
                 sym_items.append((u, rec, d))
             if rec["verdict"] == "died" and (rec.get("phase") or "ref") == "ref":
                 d = death_desc(rec)
                 if d.get("first_repo_function"):
-                    sym_functions[d["first_repo_function"]] += 1
+                    sym_functions[(d["first_repo_function"], dict_kind_of(rec), rec.get("refstate") or "built")] += 1
     agg["symmetric_failures"] = len(sym_items)
     if c07:
         for u, rec, d in sym_items:
@@ -145,7 +147,7 @@ def run_history_check(prop, tier, mode, runs, cat, budget_s, design_ref, assumpt
                 key = "%s|%s|%s" % (d["class"], d["dict_kind"], d["step"] if not c07 else "")
                 if c07:
                     candidates.setdefault(key, []).append((u, rec, d))
-                elif d["phase"] == "var" and d.get("first_repo_function") in sym_functions and not d["step"].startswith(("save", "second-save", "load-of", "own-load", "generic-load", "destroy", "sequential", "corrupted", "misdirected")):
+                elif d["phase"] == "var" and (d.get("first_repo_function"), d["dict_kind"], rec.get("refstate") or "built") in sym_functions and not d["step"].startswith(("save", "second-save", "load-of", "own-load", "generic-load", "destroy", "sequential", "corrupted", "misdirected")):
                     agg["precondition_failed"]["ambiguous: %s [%s] %s (function also fails in isolated reference calls)" % (d["class"], d["dict_kind"], d["step"])] += 1
                 elif d["phase"] == "var":
                     candidates.setdefault(key, []).append((u, rec, d))
@@ -180,7 +182,10 @@ def run_history_check(prop, tier, mode, runs, cat, budget_s, design_ref, assumpt
             if not r1 or r1["verdict"] != "ok":
                 continue
             agg["universe_pairs_compared"] += 1
-            diffs = [k for k in ("obs_img", "obs_ans", "obs_bans", "obs_lans") if r0.get(k) != r1.get(k)]
+            keys = ("obs_img", "obs_ans", "obs_bans", "obs_lans") if r0.get("mask") == r1.get("mask") else ("obs_img",)
+            if r0.get("mask") != r1.get("mask"):
+                agg["other"]["universe_difference:set_of_surviving_reference_calls"] += 1
+            diffs = [k for k in keys if r0.get(k) != r1.get(k)]
             if not diffs:
                 continue
             kind = dict_kind_of(r0)
@@ -223,6 +228,12 @@ def run_history_check(prop, tier, mode, runs, cat, budget_s, design_ref, assumpt
         if handled > 6:
             continue
         ok, replay = gate(hr, prop, mode, u, rec, d, seed)
+        if not ok and d.get("step") == "universe-compare":
+            # garbage-dependence that does not recur in a fresh process pair (a wild read that picked up
+            # process-specific bytes): recorded, not reported -- neither a violation nor an infrastructure error
+            agg["other"]["unstable_universe_difference:%s[%s]" % (d["class"], d["dict_kind"])] += 1
+            handled -= 1
+            continue
         if not ok:
             unrepro.append({"run": rec["run"], "class": d["class"], "kind": d["dict_kind"]})
             print("UNREPRODUCIBLE property=%s run=%s class=%s kind=%s" % (prop, rec["run"], d["class"], d["dict_kind"]))
@@ -263,7 +274,7 @@ def run_history_check(prop, tier, mode, runs, cat, budget_s, design_ref, assumpt
         "universe_pairs_compared": agg["universe_pairs_compared"],
         "precondition_failed": dict(agg["precondition_failed"].most_common(40)),
         "symmetric_failures_isolated_calls": agg.get("symmetric_failures", 0),
-        "functions_failing_symmetrically": dict(sym_functions.most_common(30)),
+        "functions_failing_symmetrically": {"%s [%s %s]" % k: v for k, v in sym_functions.most_common(30)},
         "events_attributed_to_other_properties": dict(agg["other"]),
         "known_findings_hit": [list(x) for x in known_hit],
         "violation_classes": violations,
@@ -308,6 +319,16 @@ def gate(hr, prop, mode, u, rec, d, seed):
         replay["first_differing_observable"] = {"universe_%d" % u: diff[0][0].strip() if diff else "", "universe_%d" % u2: diff[0][1].strip() if diff else "", "differing": len(diff)}
         replay["universe_b"] = {"index": u2, "malloc_fill": UNIVERSES[u2][0], "free_fill": UNIVERSES[u2][1]}
         return True, replay
+    if d.get("step") == "isolated-reference-call":
+        # symmetric failure (C07): the same class must show up again among the isolated reference calls
+        for r in recs:
+            for sf in r.get("sym") or []:
+                dd = death_desc({"stderr": sf.get("report") or "", "exit": 77}) if not (sf.get("report") or "").startswith("HANG") else {"class": "hang"}
+                if dd["class"] == d["class"]:
+                    replay["failing_call"] = sf.get("what")
+                    replay["stderr_excerpt"] = S.symbolize_report(sf.get("report") or "")[:2500]
+                    return True, replay
+        return False, None
     if cls2 != d["class"]:
         return False, None
     return True, replay
@@ -337,6 +358,12 @@ def replay_file(path):
     cls, _ = outcome(rc, recs, err)
     exp = rp["expect"]["class"]
     same = cls == exp
+    if rp["expect"].get("step") == "isolated-reference-call":
+        for r in recs:
+            for sf in r.get("sym") or []:
+                dd = death_desc({"stderr": sf.get("report") or "", "exit": 77}) if not (sf.get("report") or "").startswith("HANG") else {"class": "hang"}
+                if dd["class"] == exp:
+                    same, cls = True, dd["class"]
     if rp["expect"].get("step") == "universe-compare":
         u2 = rp["universe_b"]["index"]
         rc2, recs2, out2, err2 = S.run_one(argv_one(exe, rp["mode"], rp["base_seed"], rp["run"], rp["catalogue"], rp.get("extra", "")), env=universe_env(u2), timeout=600)
